@@ -7,6 +7,7 @@ CONSTANTS MaxVer = 3
           SyncBeforeFlip = TRUE
           PickNewer = TRUE
           SavepointTwoPhase = TRUE
+          RepairSync = TRUE
           SavepointPreFlush = FALSE
 INVARIANTS TypeOK RecoveryOk PrimaryServable AckedDurable
 CHECK_DEADLOCK FALSE
